@@ -28,6 +28,9 @@ def pairs():
     yield "bool vs int", True, 1
     yield "np scalar vs python", np.float64(1.5), 1.5
     yield "np scalar dtype", np.int32(1), np.int64(1)
+    yield "np scalar type behind one descr", np.longlong(1), np.int64(1)
+    yield "long double value", np.longdouble(1) / 3, np.longdouble(np.float64(1) / 3)
+    yield "long double array value", np.array([1, 2], dtype="g") / 3, np.array([1, 2], dtype="g") / 5
     yield "list vs tuple", [1, 2], (1, 2)
     yield "set vs frozenset", {1}, frozenset({1})
     yield "dict key order", {"a": 1, "b": 2}, {"b": 2, "a": 1}
@@ -63,6 +66,13 @@ def same_pairs():
     yield "deepcopy RandomState", np.random.RandomState(3), copy.deepcopy(np.random.RandomState(3))
     yield "set order", {3, 1, 2}, {1, 2, 3}
     yield "sparse rebuilt", sp.csr_matrix(np.eye(3)), sp.csr_matrix(np.eye(3))
+    # x87 padding bytes are not part of the value: a copy made through bytes with other padding is the same number
+    ld = np.array([1, 2, 3], dtype="g") / 3
+    raw = bytearray(ld.tobytes())
+    for i in range(0, len(raw), 16):
+        raw[i + 10:i + 16] = b"\xAA" * 6
+    yield "long double padding", ld, np.frombuffer(bytes(raw), dtype="g").copy()
+    yield "long double scalar padding", ld[0], np.frombuffer(bytes(raw), dtype="g")[0]
 
 
 def main():
